@@ -264,6 +264,23 @@ def run(ctx):
                      'a non-transient edit can lose against the deletion (decisions.%s) under the default strategy' % picks[0], chain)
     ok = 'inline-cells' in table.get('/cells', ())
     ctx.inst('R07.4', mf.MNB + ':notebook_merge_strategies', 'default /cells strategy', ok, 'inline-cells under merge strategy inline' if ok else 'default list strategy changed', None)
+    # quantifier helpers the arms above rely on: "all transient" must inspect every entry, "any countering" may stop early
+    for fname, kind in (('is_diff_all_transients', 'all'), ('will_diff_counter_parent_deletion', 'any')):
+        qf = repo.func('%s:%s' % (GEN, fname))
+        loops = [n for n in qf.body if isinstance(n, ast.For)]
+        if len(loops) != 1:
+            raise AnalysisError('%s: quantifier loop not found' % fname)
+        inner = [n for n in ast.walk(loops[0]) if isinstance(n, ast.Return)]
+        after = [n for n in qf.body[qf.body.index(loops[0]) + 1:] if isinstance(n, ast.Return)]
+        want_inner = (kind == 'any')
+        bad = [r for r in inner if const_val(r.value) is not want_inner]
+        tail_ok = len(after) == 1 and const_val(after[0].value) is (not want_inner)
+        ok = not bad and tail_ok and bool(inner)
+        ctx.inst('R07.4', '%s:%s' % (GEN, fname), '%s-quantifier: returns inside the loop %s, after the loop %s' % (
+            kind, sorted({ast.unparse(r.value) for r in inner}), [ast.unparse(r.value) for r in after]), ok,
+            'the loop can only stop early with the %s verdict; the opposite verdict needs every entry' % want_inner if ok else
+            'the "%s" check can answer %s before all entries were inspected: %s' % (kind, not want_inner, repo.norm(bad[0]) if bad else 'verdict after the loop is wrong'),
+            bad[0] if bad else qf)
     md = repo.func(GEN + ':_merge_dicts')
     dchain = None
     for n in walk_no_nested(md):
